@@ -239,7 +239,7 @@ def run(ctx, idx):
         folded = [m_ for m_ in FOLD if ("." + m_ + "(") in both]
         ctx.ob("C17.j", "%s.execute::header-lookup" % rd[0].key, rd[0].module.rel, n_.lineno, not folded,
                "the header row is searched for the field name as given" if not folded else
-               "`%s` compares %s forms of the header names and the field name: of two columns whose names differ only in that respect (`elev` / `Elev`) the first one is returned for both, with its values and its missing cells" % (K.src(n_)[:60], "/".join(folded)))
+               "`%s` compares %s forms of the header names and the field name: of two columns whose names differ only in that respect (`elev` / `Elev`) the first one is returned for both, with its values and its missing cells - and where it is only a fallback of the exact search, a field name that is NOT a header of the file is answered with another column instead of being reported as missing with the file line" % (K.src(n_)[:60], "/".join(folded)))
     ctx.rule("C17.i", "The table format is fixed: csv.reader / csv.writer are given the line source (and constant format options) only - no dialect sniffed from the data, no delimiter computed at run time. A guessed delimiter turns a one-column table of decimals into two columns at the decimal point.")
     n_csv = 0
     undecided_ = []
@@ -427,6 +427,33 @@ def run(ctx, idx):
     header = [c for c in comps if isinstance(c.elt, ast.Attribute) and c.elt.attr == "result_name"]
     cols = [c for c in comps if isinstance(c.elt, ast.Attribute) and c.elt.attr == "result"]
     con = "%s.execute::same-order" % d.key
+    if not header and not cols:
+        # second form: the (name, values) pairs are built in ONE unfiltered walk of the commands and both the header and the columns are
+        # projections of that list: [(c.result_name, c.result) for c in cmds]; [n for n, _ in pairs]; [v for _, v in pairs]
+        for pc in comps:
+            g_ = pc.generators[0]
+            if not (isinstance(pc.elt, ast.Tuple) and isinstance(g_.target, ast.Name) and not g_.ifs):
+                continue
+            kinds = [x_.attr if (isinstance(x_, ast.Attribute) and isinstance(x_.value, ast.Name) and x_.value.id == g_.target.id) else None for x_ in pc.elt.elts]
+            if kinds.count("result_name") != 1 or kinds.count("result") != 1:
+                continue
+            holder = [st_ for st_ in own_nodes(fi.node) if isinstance(st_, ast.Assign) and st_.value is pc and len(st_.targets) == 1 and isinstance(st_.targets[0], ast.Name)]
+            if len(holder) != 1:
+                continue
+            pname = holder[0].targets[0].id
+            if sum(1 for st_ in own_nodes(fi.node) if isinstance(st_, ast.Name) and st_.id == pname and isinstance(st_.ctx, ast.Store)) != 1:
+                continue
+            for c in comps:
+                gg = c.generators[0]
+                if isinstance(gg.iter, ast.Name) and gg.iter.id == pname and isinstance(gg.target, ast.Tuple) and len(gg.target.elts) == len(kinds) \
+                        and all(isinstance(x_, ast.Name) for x_ in gg.target.elts) and isinstance(c.elt, ast.Name):
+                    tn = [x_.id for x_ in gg.target.elts]
+                    if tn.count(c.elt.id) == 1:
+                        k_ = kinds[tn.index(c.elt.id)]
+                        if k_ == "result_name":
+                            header.append(c)
+                        elif k_ == "result":
+                            cols.append(c)
     if not header or not cols:
         raise AnalysisError("C17.d: header / column comprehensions not found in the CSV writer")
     hs, cs = K.src(header[0].generators[0].iter), K.src(cols[0].generators[0].iter)
